@@ -338,3 +338,22 @@ Proof.
   split; [repeat constructor; cbn; intuition|].
   vm_compute. repeat split; discriminate.
 Qed.
+
+(* The stale-set schedule: a reader's database load of an uncached key starts (it reads v1) BEFORE a
+   write-with-invalidation Exec(v2) of that key and its SETEX lands AFTER the Exec's DEL.  The two
+   operations OVERLAP, which the property's quantifier excludes ("operations on a key do not
+   overlap"); its sequential image is exactly an UNDISCIPLINED history - the cache is written
+   behind the database's back with a value the database no longer holds - and that is why
+   coherent_reads asks for discipline: afterwards, with nothing outstanding, the stale row is
+   served from the cache.  What the property still promises holds: the entry has a finite TTL, and
+   once it has passed the read is fresh.  (The unchanged code does leave this entry: monitor
+   "stale-set schedule" of the check.) *)
+Example stale_set_race_is_undisciplined :
+  let ops := [OExec 1 (Some (7, 42)) [KP 1; KU 7]; OSet 1 7 41 100] in
+  all_disciplined f7_cfg (init f7_rows) ops = false /\
+  let s := final f7_cfg (init f7_rows) ops in
+  pending s = [] /\ lost s = [] /\ dirty s (KP 1) = false /\
+  step f7_cfg s (OTake 1 100) = (s, mkObs (RRow 1 7 41) 0 0) /\ db_get 1 (db s) = Some (7, 42) /\
+  (exists x, option_map eexp (find (KP 1) (cache s)) = Some (Some x)) /\
+  oret (snd (step f7_cfg (fst (step f7_cfg s (OAdv 100001))) (OTake 1 100))) = RRow 1 7 42.
+Proof. vm_compute. repeat split. eexists. reflexivity. Qed.
